@@ -8,6 +8,15 @@ HERE = os.path.dirname(os.path.dirname(os.path.abspath(__file__)))
 
 # pid -> (category, technique, level text, level note, design ref)
 CHECKS = {
+    "C05": (
+        "exploration",
+        "Hypothesis: generated sets of 2-6 competing flows (specificity, priority, action identity, loop, tie-break outcome); reference winner model with a validity predicate for ties",
+        "Generated competitions are run through the real interpreter with the tie-break (`random.choice`) owned by the case; per interaction loop the set of "
+        "flows still running must be the co-winner set of ONE top-scoring flow (score = 0.9^unmentioned x priority), every other fitting flow stopped, "
+        "non-fitting flows untouched, and each winning action started exactly once.",
+        "Trusts the score formula of the docs (0.9 per unmentioned parameter x priority); ties within 1e-9 accept any tied winner; wrapped variant keeps all flows at equal depth.",
+        "DESIGN.md 4/C05",
+    ),
     "C07": (
         "exploration",
         "Hypothesis: and/or formula generator x event sequences; oracle = evaluate the boolean formula over events seen; exhaustive permutations for all formula shapes with <=4 leaves",
